@@ -124,15 +124,16 @@ func WorkerMain(args []string) int {
 			}
 			seenViol[vk] = true
 			min, minRes := plan, res
-			if !*noShrink {
-				var runs int
-				min, minRes, runs = Minimise(prop, plan, res, 3000)
-				out.ShrinkRuns += runs
-			}
 			path := ""
 			if *replays != "" {
 				_ = os.MkdirAll(*replays, 0o755)
 				path = filepath.Join(*replays, fmt.Sprintf("%s-%d-%d.json", *propID, *seed, i))
+			}
+			fps, _ := prop.(interface{ FreshProcessShrink() bool })
+			if !*noShrink && (fps == nil || !fps.FreshProcessShrink()) {
+				var runs int
+				min, minRes, runs = Minimise(prop, plan, res, 3000)
+				out.ShrinkRuns += runs
 			}
 			if path != "" && !*noShrink {
 				// the minimised plan must fail the same way in a fresh process; if the
